@@ -11,22 +11,22 @@ def shards(n, test, checks, **kw):
 RULES = {}
 PROPS = {}
 
-RULES["C12"] = ("cases: Threshold(s) for s drawn from {1,2,3,20,50,1000, tie values, [1,2000], [1,10^6]} (thorough: every s in 1..10^6) "
+RULES["C12"] = ("cases: Threshold(s) for s drawn from {1,2,3,20,50,1000, tie values, [1,2000], [1,10^6]} and, in both tiers, every s in 1..10^6 (exhaustive sweep) "
                 "and ThresholdQ(list) for lists of 1..2000 values mixing uniform [0,1], the exact doubles 0,0.1,...,1.0 and their "
                 "Nextafter neighbours, clustered values, each also evaluated in a drawn permutation. non-trivial: s whose real "
                 "threshold lies within 0.01 of an integer (or s in {20,50,1000}); a list containing a value exactly on an interval "
                 "edge or with reference uniformity P strictly inside (1e-9,1-1e-9). distinct: hash of the case JSON.")
 PROPS["C12"] = {
     "level": "exploration",
-    "quick": [S("TestC12", 20000, floor=5000), S("TestC12", 20000, floor=5000), S("TestC12", 20000, floor=5000), S("TestC12Sweep", floor=10, env={"VERIF_LO": 1, "VERIF_HI": 20000})],
+    "quick": [S("TestC12Sweep", floor=1000, env={"VERIF_LO": 1 + i * 125000, "VERIF_HI": (i + 1) * 125000}) for i in range(8)] + shards(4, "TestC12", 20000, floor=5000),
     "thorough": [S("TestC12Sweep", floor=1000, env={"VERIF_LO": 1 + i * 62500, "VERIF_HI": (i + 1) * 62500}) for i in range(16)]
-                + shards(8, "TestC12", 30000, floor=10000),
-    "exhaustive": {"thorough": "Threshold(s) for every s in 1..10^6"},
+                + shards(8, "TestC12", 60000, floor=10000),
+    "exhaustive": {"quick": "Threshold(s) for every s in 1..10^6", "thorough": "Threshold(s) for every s in 1..10^6"},
     "assumptions": ["Go math.Erfc/Sqrt trusted", "reference Igamc validated against an mpmath table on every run"],
 }
 
 RULES["C06"] = ("cases: (a,x,x2) with a = k/2, k from shapes the tests use / [1,40] / [41,1000] / [1001,10000]; x from a mixture: a(1+d) and 1+d "
-                "with d log-uniform +-[1e-16,0.3] (both switch-over lines, both sides), a+z sqrt(a) z in [-8,12], uniform [0,20a+200], [0,3a], "
+                "with d log-uniform +-[1e-16,0.3] (both switch-over lines, both sides), a+z sqrt(a) z in [-8,12], a-u sqrt(a) and a+u sqrt(a) (where the series / continued fraction need the most iterations), uniform [0,20a+200], [0,3a], "
                 "0, negative, the prefactor-underflow cut-off (a ln x - x - lgamma a = -709.78, found by bisection) +- drawn width, tiny x; "
                 "x2 >= x is a 1-4 ulp neighbour, a relative 1e-12..0.3 neighbour or a far point (monotonicity). "
                 "non-trivial: reference Q strictly inside (1e-300,1). distinct: hash of (2a,x,x2).")
@@ -101,8 +101,9 @@ RULES["C05"] = ("sequences from families {explicit bits, uniform, biased, consta
 PROPS["C05"] = {
     "level": "exploration",
     "quick": shards(8, "TestC05", 1500, floor=400) + [S("TestC05Sweep", floor=100)],
-    "thorough": shards(15, "TestC05", 4000, floor=1000, timeout=3400) + [S("TestC05Sweep", floor=100, env={"VERIF_HI": 300})],
-    "assumptions": ["n <= 2^20 executed (2^27 would need ~5 GB for the library and again for the oracle); the code path is size independent",
+    "thorough": shards(15, "TestC05", 4000, floor=1000, timeout=3400) + [S("TestC05Sweep", floor=100, env={"VERIF_HI": 300})]
+                + [S("TestC05Huge", floor=1, env={"VERIF_N": n}, mem_gb=40, weight=4, timeout=3400) for n in (100000000, 1 << 27)],
+    "assumptions": ["generated cases use n <= 2^18; the thorough tier additionally runs n = 10^8 and n = 2^27 (the top of the stated range) on single-transition sequences whose spectrum has a closed form (no reference transform needed)",
                     "math.Sincos/cmplx.Abs trusted"],
 }
 
@@ -116,13 +117,13 @@ PROPS["C19"] = {
     "quick": shards(8, "TestC19", 2000, floor=500) + [S("TestC19Sweep", floor=100)],
     "thorough": shards(15, "TestC19", 5000, floor=1500, timeout=3400) + [S("TestC19Sweep", floor=100, env={"VERIF_HI": 70000}, timeout=3400)]
                 + [S("FuzzFFTNew", fuzz="FuzzFFTNew", fuzztime=60, parallel=4, floor=1000, weight=4, timeout=600)],
-    "assumptions": ["fft.New(2^27) itself is not constructed (3 GB); 2^27+1 and above are checked by argument only",
+    "assumptions": ["fft.New(2^27) is constructed once per run (3 GB); a full 2^27-point transform (unit impulse, analytic spectrum on sampled bins, inverse round trip) only in the thorough tier",
                     "a panic on a wrong-length slice counts as 'refused' (the property says refused rather than computed)"],
 }
 
 _STREAM = ("streams are composed by rapid from a committed pool of classified PRNG samples (search guidance only; every oracle recomputes all results on the current tree): "
            "targets {pass count of a drawn item at allowed-1..allowed+2 failing samples, ten-bin Q histogram of a drawn item drawn from all partitions of s with uniformity P in [1e-6,1e-2] "
-           "in a drawn bin order, two items failing, random pool samples, all-pass samples, (periodic) 20 degree-63 LFSR samples that only the excluded items 13-15 reject}, samples shuffled, "
+           "in a drawn bin order, two items failing, 'mixed' (item i fails only the uniformity criterion with a two-bin histogram while a later item j fails only the pass count), 'one-bad' (all-pass samples plus exactly the tolerated number of stuck-at samples), random pool samples, all-pass samples, (periodic) 20 degree-63 LFSR samples that only the excluded items 13-15 reject}, samples shuffled, "
            "0 / 1 / sampleBytes-1 / sampleBytes / 3*sampleBytes trailing bytes (zero or random). ")
 RULES["C07"] = (_STREAM + "oracle: independent decision model (exact-integer threshold, own binning, big.Float igamc) over the registry runners' results on each sample: verdict equal, nil error iff true, "
                 "error names an item violating a criterion; (periodic) same outcome with and without the trailing bytes. non-trivial: some item's pass count in {t-1,t} or some item's uniformity P in [1e-5,1e-3]. "
@@ -147,7 +148,7 @@ PROPS["C08"] = {
     "level": "exploration",
     "quick": [S("TestC08", 70, mode="period", cpus=c, floor=30) for c in _CPUS] + [S("TestC08", 70, mode="period", floor=30)]
              + [S("TestC08", 25, mode="period", race=True, floor=10, weight=3)]
-             + [S("TestC08", 1, mode="poweron", floor=1, weight=4), S("TestC08", 1, mode="poweron", cpus="0-2", floor=1, weight=3), S("TestC08", 1, mode="factory", floor=1, weight=4)],
+             + [S("TestC08", 1, mode="poweron", floor=1, weight=4, env={"VERIF_TARGETS": "mixed"}), S("TestC08", 1, mode="poweron", cpus="0-2", floor=1, weight=3, env={"VERIF_TARGETS": "one-bad,passcount,uniformity"}), S("TestC08", 1, mode="factory", floor=1, weight=4, env={"VERIF_TARGETS": "mixed,one-bad"})],
     "thorough": [S("TestC08", 1500, mode="period", cpus=c, floor=400) for c in _CPUS] + shards(3, "TestC08", 1500, mode="period", floor=400)
              + shards(2, "TestC08", 300, mode="period", race=True, floor=100, weight=2)
              + [S("TestC08", 12, mode="poweron", cpus=c, floor=4, weight=3, timeout=3400) for c in ("0-1", "0-4", None, None)]
@@ -203,7 +204,7 @@ PROPS["C11"] = {
 }
 
 RULES["C14"] = ("sources that repeat a tile of 1..64 bytes forever: constant (all 256 values enumerated through the periodic workflows), uniform random tiles, sparse tiles (1-3 set or cleared bits at any bit position), "
-                "structured tiles (counter, 55AA, one-hot, i*37), explicit 1-8 byte tiles; each through the sequential workflow and then its parallel twin; single-shot: 0x00.. and 0xFF.. at lengths {16,39,40,1279,1280} + drawn "
+                "structured tiles (counter, 55AA, one-hot, i*37), explicit 1-8 byte tiles; each through the sequential workflow and then its parallel twin; single-shot: 0x00.. and 0xFF.. at lengths {16,39,40,1279,1280}, 16..4096, {65535,65536,65537,70000,2^17,2^20,2^20+1,2^22}, 4097..2^21 drawn "
                 "(sweep: every length 16..400 quick / 16..4096 thorough). oracle: no panic, verdict false, error non-nil (single-shot: verdict false). non-trivial: the tile has >= 2 distinct byte values (single-shot cases count). distinct: hash of the case JSON.")
 PROPS["C14"] = {
     "level": "exploration",
